@@ -399,6 +399,37 @@ func oracleC07(rep *report, r *rng) {
 			}
 		}
 	})
+	// lists whose byte size passes 2^16 behind a 16-bit count
+	for ti := range genTypes {
+		t := &genTypes[ti]
+		ms, descs := wrapSizeMessages(r, t)
+		for mi, m := range ms {
+			if rep.failed() {
+				break
+			}
+			st, enc := encodeFresh(m)
+			if st != "ok" {
+				continue
+			}
+			tail := r.bytes(1 + r.intn(12))
+			rep.eval("tail-wrap/"+t.Pkg, fmt.Sprint(t.Id, descs[mi]))
+			recv := t.New()
+			in := inputOf(t, "value", descs[mi]+" (other fields canonical random)", "encoded_len", len(enc), "tail_hex", hx(tail))
+			st, rest := decodeInto(recv, append(append([]byte{}, enc...), tail...))
+			if st != "ok" {
+				rep.fail(failure{Oracle: "exact-consumption", Type: t.QName(), What: "Decode of an encoding followed by more bytes returned " + st, Input: in})
+				continue
+			}
+			if !bytes.Equal(rest, tail) {
+				in["left_len"] = len(rest)
+				rep.fail(failure{Oracle: "exact-consumption", Type: t.QName(), What: fmt.Sprintf("Decode consumed %d bytes, the message is %d bytes", len(enc)+len(tail)-len(rest), len(enc)), Input: in})
+				continue
+			}
+			if dumpMsg(recv) != dumpMsg(m) {
+				rep.fail(failure{Oracle: "exact-consumption", Type: t.QName(), What: "the decoded message differs from the encoded one", Input: in})
+			}
+		}
+	}
 	// streams with reused receivers
 	for k := 0; k < rounds(rep, 150, 2000) && !rep.failed(); k++ {
 		buf := &bytes.Buffer{}
@@ -889,6 +920,34 @@ func oracleC11(rep *report, r *rng) {
 			}
 		}
 	})
+	// lists whose byte size passes 2^16 behind a 16-bit count: a presence check computed in the prefix type wraps
+	for ti := range genTypes {
+		t := &genTypes[ti]
+		ms, descs := wrapSizeMessages(r, t)
+		for mi, m := range ms {
+			st, enc := encodeFresh(m)
+			if st != "ok" || rep.failed() {
+				continue
+			}
+			cuts := []int{0, 1, 2, 3, 4, 6, 8, 16, len(enc) / 2, len(enc) - 1, len(enc) - 2, len(enc) - 7, len(enc) - 64, len(enc) - 4097}
+			for j := 0; j < 24; j++ {
+				cuts = append(cuts, r.intn(len(enc)))
+			}
+			for _, cut := range cuts {
+				if cut < 0 || cut >= len(enc) {
+					continue
+				}
+				recv := t.New()
+				st, _ := decodeInto(recv, enc[:cut])
+				rep.eval("cut-wrap/"+st, fmt.Sprint(t.Id, mi, cut))
+				if st != "err" {
+					rep.fail(failure{Oracle: "prefix-rejected", Type: t.QName(), What: fmt.Sprintf("Decode of the first %d of %d bytes returned %s", cut, len(enc), st),
+						Input: inputOf(t, "value", descs[mi]+" (other fields canonical random)", "encoded_len", len(enc), "cut", cut)})
+					break
+				}
+			}
+		}
+	}
 }
 
 // ---------- C15 ----------
